@@ -97,6 +97,14 @@ class DecomposeTask(T.Task):
             want = p[4:][a:e] if (a, e) != (0, 0) else ""
             if getattr(obj, c) != want or getattr(obj.bban, c) != want:
                 bad.append(c)
+        # fields never overlap: the spans the live object uses (its effective spec), pairwise
+        live = [(c, tuple(v)) for c, v in obj.bban.spec.get("positions", {}).items() if tuple(v) != (0, 0)]
+        for i, (c1, (a1, e1)) in enumerate(live):
+            if not 0 <= a1 < e1 <= len(p) - 4:
+                bad.append(f"{c1} {a1, e1} lies outside the BBAN")
+            for c2, (a2, e2) in live[i + 1:]:
+                if not (e1 <= a2 or e2 <= a1):
+                    bad.append(f"{c1} {a1, e1} = {getattr(obj, c1)!r} overlaps {c2} {a2, e2} = {getattr(obj, c2)!r}")
         return not bad, bad, []
 
     def sample(self, rnd):
